@@ -162,6 +162,21 @@ class C04(Property):
             # target D2: a part end landing exactly on the wrap point
             if circular and rng.random() < 0.3:
                 k = n - a["parts"][rng.randrange(len(a["parts"]))][1]
+            # D58: runs of abutting exons (each ending where the next starts), also over the origin
+            if circular and n >= 8 and rng.random() < 0.15:
+                m = rng.choice([3, 3, 4, 5])
+                width = rng.randrange(m, n)
+                cuts = sorted(rng.sample(range(1, width), m - 1))
+                lo0 = rng.randrange(0, n)
+                bounds = [lo0] + [lo0 + c for c in cuts] + [lo0 + width]
+                parts = []
+                for x, y in zip(bounds, bounds[1:]):
+                    if x < n < y:
+                        parts += [[x, n, 1], [0, y - n, 1]]
+                    else:
+                        parts.append([x % n if x >= n else x, (y - 1) % n + 1, 1])
+                if len(parts) >= 2:
+                    a = compound(parts)
             return {"f": f, "a": a, "k": k, "wrap": w}
         if f == "build":
             k = rng.choice([1, 2, 3])
